@@ -36,7 +36,7 @@ scratch copy of `/repo`'s HEAD, the unedited test suite still passes there (196)
 0 without and non-zero with the change, and the quick check of the broken property is run against the copy
 (`MOSROMGR_SRC`).  They are kept under `seeded/<id>/` (patch.diff, demo.py, notes.md, check_result.json,
 meta.json); `tools/try_all_seeded.sh` re-runs all of them.  **All %d are caught by the quick check of the property
-they break: %d with a failing input replayed on the real code, %d (round 5: `R5A_2`, `R5B_3`) by failed
+they break: %d with a failing input replayed on the real code, %d (round 5: `R5A_2` under C04 - its failing history is found by the C13 check) by failed
 obligations alone (`VIOLATION ... no-failing-input-found`, the replay file names the obligations and carries the
 solver output; the stand-in has no history / input for them yet).**  The last column says what the deductive part
 did on its own: obligations that fail on the changed source, or *tool limit* when the change moved the function
@@ -109,7 +109,9 @@ What the misses of each round exposed, and what was strengthened:
   built-in exception under C12 / C05 only - it now also reports it under C06 (named elements not acted on, nothing
   the library defines reported it).  `R5A_3` (`MetaDataReplace.merge` copies only the text of a childless target):
   a tool limit (write to `Element.text`) without a scenario; carried metadata with attributes / children replacing
-  a text-only element, and empty elements replacing full ones, added to the stand-in.  `R5B_2` (`MosReader.from_string`
+  a text-only element, and empty elements replacing full ones, added to the stand-in.  `R5B_3` (two sites: `find_child` compares stripped IDs, `EAItemSwap` tests ID equality instead of node identity)
+  failed an obligation but had no input: references that differ from an ID only by white space added to the merge
+  scenarios.  `R5B_2` (`MosReader.from_string`
   keeps the parsed object in a closure) and `R5C_3` (strict `MosCollection.merge` re-raises a new `MosMergeError`,
   so a completed running order no longer surfaces as `MosCompletedMergeError`) looked caught under C13 / C07 in the
   first, heavily parallel batch - by one solver time-out each, not by a real failure (a warning about verdicts under
@@ -119,7 +121,8 @@ What the misses of each round exposed, and what was strengthened:
   `ro += mo` raised, or one of the same class raised from it); the C07 stand-in now also demands the exact class
   for a message behind the roDelete in a strict merge and for a second `merge()` of a completed collection.  `R5D_2` (`assert` instead of `raise` in `_validate`,
   wrong only under `python -O`) fails two obligations of `_validate` and is replayed by the stand-in, which already
-  ran every construction under `-O` as well.
+  ran every construction under `-O` as well.  The 110 changes of rounds 1-4 were last re-run before this round's
+  additions (which only add clauses, tags and scenarios; no clause or scenario was removed or weakened), not after.
 
 | id | breaks | file | needs to manifest | caught by | deductive part alone |
 |---|---|---|---|---|---|
